@@ -750,7 +750,7 @@ def run_check(tier, base_seed, wall, workers, do_selftest):
     if agg['harness'] or len(agg['lost']) > 3:
         for h in (agg['harness'] + agg['lost'])[:5]:
             print('HARNESS-ERROR: %s' % h)
-        return 2
+        return 1 if new else 2
     if agg['runs'] == 0:
         print('HARNESS-ERROR: no runs executed')
         return 2
